@@ -77,6 +77,13 @@ func (r *round1) Update(msg model.ConsensusMessage) *Error {
 	gid := groupsig.DeserializeID(bh.GroupId)
 	si := cvm.SignInfo
 
+	// the share must be a signature over this block's hash: the sign info is
+	// verified against the hash it claims, so that hash has to be this block's
+	if cvm.BlockHash != bh.Hash || si.GetDataHash() != bh.Hash {
+		r.logger.Errorf("sign data hash not match, id: %s. hash: %s, data hash: %s, height: %d", si.GetSignerID().GetHexString(), bh.Hash.String(), si.GetDataHash().String(), bh.Height)
+		return nil
+	}
+
 	// get pubKey
 	pk, ok := group_create.GroupCreateProcessor.GetMemberSignPubKey(gid, si.GetSignerID())
 	if !ok {
